@@ -560,7 +560,8 @@ impl Database {
                                 col_idx,
                                 col_def.data_type(),
                             )?;
-                            if value.is_null() {
+                            // like INSERT: only unique indexes leave out rows with a NULL
+                            if value.is_null() && is_unique {
                                 all_non_null = false;
                                 key_buffer.truncate(key_start as usize);
                                 break;
